@@ -11,8 +11,45 @@ quitting and blacklisted ones, and does not happen twice in a block.  See checks
 from checks import _gov
 
 
+def _init_state(ctx):
+    """Bind the model's initial state: Governance.tla starts from 'what InitConfig writes' - every genesis peer in the pool
+    of view 1 with its configured index, an index record equal to it, and a candidate-index counter above every index in
+    the pool (so that the next approved candidate gets a fresh index).  The real InitConfig is run over genesis
+    configurations whose indices are 1..n, have gaps, or are permuted (CheckVBFTConfig only asks for positive, unique)."""
+    if ctx.replay:
+        return
+    b = ctx.build("vd-gov")
+    try:
+        out = ctx.driver(b, ["initcfg"])
+    except (ValueError, UnicodeError) as e:
+        ctx.fail("initcfg output unreadable: %r" % (e,))
+    rows = [o for o in out if o.get("initcfg")]
+    if len(rows) < 8:
+        ctx.fail("initcfg answered %d configurations" % len(rows))
+    done = 0
+    for o in rows:
+        shape = "contiguous" if sorted(o["indices"]) == list(range(1, len(o["indices"]) + 1)) else "gaps"
+        if o["panic"]:
+            ctx.violation("nodeA:initconfig:panic:%s" % shape, {"config": o["indices"], "panic": o["panic"][:200]})
+            continue
+        if o["err"]:
+            ctx.fail("InitConfig refused a configuration CheckVBFTConfig allows: %s" % o["indices"])
+        done += 1
+        idx = sorted(o["pool"].values())
+        if idx != sorted(o["indices"]) or o["view"] != 1:
+            ctx.violation("nodeA:initconfig:pool-indices-differ-from-configuration:%s" % shape, {"config": o["indices"], "pool": idx})
+        elif any(o["records"].get(k, 0) != v for k, v in o["pool"].items()):
+            ctx.violation("nodeA:initconfig:index-record-differs-from-pool:%s" % shape, {"config": o["indices"], "pool": o["pool"], "records": o["records"]})
+        elif o["cand"] <= max(idx):
+            ctx.violation("nodeA:initconfig:candidate-index-not-above-pool-indices:%s" % shape,
+                          {"config": o["indices"], "candidate_index": o["cand"], "max_pool_index": max(idx),
+                           "why": "the next approved candidate would share an index with a genesis validator (PropC34: distinct indices)"})
+    ctx.note("initial state: real InitConfig over %d genesis configurations (contiguous, gaps, permuted) conforms to the model's Init" % done)
+
+
 def run(ctx):
     q = ctx.quick
+    _init_state(ctx)
     # the quick configuration is part of both tiers (its exploration of the real contracts around the deviations is
     # complete or nearly so); the thorough tier adds the larger configuration
     _gov.run_gov(ctx, "C34", "C34", "Governance_C34_gen_quick.cfg", nv=5, depth=3, cap=1000)
@@ -22,7 +59,7 @@ def run(ctx):
                       "deviating real executions and a bounded exploration of the real contract from each deviating state are judged "
                       "by TLC (GovJudge) with the PropC34 monitor. distinct_nontrivial = distinct (action, result, post-state) of "
                       "conforming edges whose call was not refused.",
-                      assumptions=_gov.ASSUME + ["pool seeded as InitConfig writes it (view 1, index records, candidate index); "
+                      assumptions=_gov.ASSUME + ["pool of the edge replay seeded as InitConfig writes it (view 1, index records, candidate index); the real InitConfig is bound separately over 8 genesis index layouts; "
                                                  "MaxBlockChangeView seeded as 2",
                                                  "the model follows whichever of the two allowed behaviours the contract shows for the "
                                                  "upper-case spelling at registration (probed once per run)"])
